@@ -35,6 +35,10 @@ def shard(args):
                'AUTO_DESTROY': 1 if r.chance(0.2) else 0, 'TX_HOOKS': r.randrange(2), 'CFG_COPY': 1 if r.chance(0.1) else 0,
                # the two request-field switches, independently (what is switched on must be reported whatever the other switch says)
                'PARSE_COOKIES': 0 if r.chance(0.15) else 1, 'PARSE_AUTH': 0 if r.chance(0.15) else 1}
+        if not cfg['AUTO_DESTROY'] and r.chance(0.2):
+            # the application disposes of finished transactions between calls (htp_tx_destroy + htp_connp_tx_freed): later
+            # responses must still land on their own requests
+            cfg['DESTROY_DONE'] = 1
         cases.append((i, cfg, ops))
         meta[i] = (ex, cfg, kind, ops)
     path = os.path.join(wd, 'b%d.hxb' % s)
